@@ -12,6 +12,7 @@ import (
 	"os"
 	"os/exec"
 	"reflect"
+	"strconv"
 	"strings"
 
 	"github.com/rs/zerolog"
@@ -394,6 +395,16 @@ func main() {
 				zerolog.LevelFieldMarshalFunc = func(l zerolog.Level) string { return strings.ToUpper(l.String()) }
 			},
 			"LevelInfoValue=INFO,LevelWarnValue=Warning": func() { zerolog.LevelInfoValue, zerolog.LevelWarnValue = "INFO", "Warning" },
+			// text forms that are numbers (syslog-style severities): the named levels still take precedence
+			"LevelFieldMarshalFunc=numeric": func() {
+				zerolog.LevelFieldMarshalFunc = func(l zerolog.Level) string {
+					if l == zerolog.NoLevel {
+						return ""
+					}
+					return strconv.Itoa(107 - int(l))
+				}
+			},
+			"LevelWarnValue=40,LevelInfoValue=30": func() { zerolog.LevelInfoValue, zerolog.LevelWarnValue = "30", "40" },
 			"LevelFieldMarshalFunc=bracketed": func() {
 				zerolog.LevelFieldMarshalFunc = func(l zerolog.Level) string { return "[" + l.String() + "]" }
 			},
@@ -402,7 +413,7 @@ func main() {
 			apply()
 			for l := -128; l <= 127; l++ {
 				lv := zerolog.Level(l)
-				if name == "LevelFieldMarshalFunc=bracketed" && (l < -1 || l > 7) {
+				if (name == "LevelFieldMarshalFunc=bracketed" || name == "LevelFieldMarshalFunc=numeric" || name == "LevelWarnValue=40,LevelInfoValue=30") && (l < -1 || l > 7) {
 					continue // "[12]" is not a number: only the named levels can round-trip through a decorating function
 				}
 				b, _ := lv.MarshalText()
